@@ -438,6 +438,54 @@ func (g *c18Gen) bigFloat() *big.Float {
 	return f
 }
 
+// compactTime: a third converted from a time.Time, a third built with the package's constructors (every zone kind, dates,
+// times, timestamps), a third with the zone struct filled in by hand (only one of the two spellings, both, a spelling with
+// another zone type) — marshaling must leave whatever it is given alone.
+func (g *c18Gen) compactTime() compact_time.Time {
+	r := g.r
+	areas := []string{"Europe/Berlin", "America/Argentina/Buenos_Aires", "Asia/Tokyo", "Etc/UTC", "Local", "Zero", "E/Paris", "M/Lima", "UTC", "Z", "L"}
+	var tz compact_time.Timezone
+	switch r.Intn(3) {
+	case 0:
+		return compact_time.AsCompactTime(g.timeVal())
+	case 1:
+		switch r.Intn(5) {
+		case 0:
+			tz = compact_time.TZAtUTC()
+		case 1:
+			tz = compact_time.TZLocal()
+		case 2:
+			tz = compact_time.TZAtAreaLocation(areas[r.Intn(len(areas))])
+		case 3:
+			tz = compact_time.TZAtLatLong(r.Intn(18001)-9000, r.Intn(36001)-18000)
+		default:
+			tz = compact_time.TZWithMiutesOffsetFromUTC(r.Intn(2879) - 1439)
+		}
+	default:
+		a := areas[r.Intn(len(areas))]
+		tz.Type = []compact_time.TimezoneType{compact_time.TimezoneTypeAreaLocation, compact_time.TimezoneTypeAreaLocation, compact_time.TimezoneTypeLocal,
+			compact_time.TimezoneTypeUTC, compact_time.TimezoneTypeLatitudeLongitude, compact_time.TimezoneTypeUTCOffset}[r.Intn(6)]
+		switch r.Intn(4) {
+		case 0:
+			tz.LongAreaLocation = a
+		case 1:
+			tz.ShortAreaLocation = a
+		case 2:
+			tz.LongAreaLocation, tz.ShortAreaLocation = a, areas[r.Intn(len(areas))]
+		}
+		if r.Intn(2) == 0 {
+			tz.LatitudeHundredths, tz.LongitudeHundredths, tz.MinutesOffsetFromUTC = int16(r.Intn(18001)-9000), int16(r.Intn(36001)-18000), int16(r.Intn(2879)-1439)
+		}
+	}
+	switch r.Intn(3) {
+	case 0:
+		return compact_time.NewDate(r.Intn(4000)-1000, 1+r.Intn(12), 1+r.Intn(28))
+	case 1:
+		return compact_time.NewTime(r.Intn(24), r.Intn(60), r.Intn(60), r.Intn(1000000000), tz)
+	}
+	return compact_time.NewTimestamp(r.Intn(4000)-1000, 1+r.Intn(12), 1+r.Intn(28), r.Intn(24), r.Intn(60), r.Intn(60), r.Intn(1000000000), tz)
+}
+
 func (g *c18Gen) bigDec() *apd.Decimal {
 	g.bigPtrs++
 	d := apd.NewWithBigInt(c19RandBig(g.r, 1+g.r.Intn(150)), int32(g.r.Intn(80)-40))
@@ -589,10 +637,10 @@ func (g *c18Gen) node(depth int) *c18Node {
 		n.PT = &t
 	}
 	if on() {
-		n.CT = compact_time.AsCompactTime(g.timeVal())
+		n.CT = g.compactTime()
 	}
 	if on() {
-		t := compact_time.AsCompactTime(g.timeVal())
+		t := g.compactTime()
 		n.PCT = &t
 	}
 	if on() {
